@@ -323,8 +323,8 @@ func check(src string, ci int, ss *session) (vs []engine.Violation, outcome stri
 	o := xpx.RunMachine(m, tree.At(contexts[ci]...))
 	got := observed(tree)
 	if ci == 0 && debugToo(src) {
-		// (on one of the four context positions - a non-root one; thorough tier: for the expressions of
-		// the quick tier's size and one in eight of the longer ones, chosen by hash) the same run with the context's debug listing on asks the data tree the very same questions
+		// (on one of the four context positions - a non-root one; thorough tier: for one expression in sixteen,
+		// chosen by hash - the quick tier covers every expression of its own size) the same run with the context's debug listing on asks the data tree the very same questions
 		// (a fresh machine: the listing is a diagnostic aid and must not take part in the evaluation)
 		used := strings.Join(tree.CallStrings(), " ; ")
 		if dm, derr := expr.NewExprMachine(src, mapFn); derr == nil {
@@ -429,14 +429,14 @@ func stepForms(maxPreds int, full bool) []string {
 var debugAll = true
 
 func debugToo(src string) bool {
-	if debugAll || len(src) <= 24 {
+	if debugAll {
 		return true
 	}
 	h := 0
 	for _, c := range src {
 		h = h*31 + int(c)
 	}
-	return h&7 == 0
+	return h&15 == 0
 }
 
 func run(c *engine.Ctx) {
